@@ -221,6 +221,12 @@ func init() {
 			Default: Cfg{I: []int{momentum.DefaultRsiPeriod}, F: []float64{sm.DefaultRsiStrategyBuyAt, sm.DefaultRsiStrategySellAt}},
 			Rand: func(r *gen.Rand) Cfg {
 				lo, hi := s3Thresholds(r, 50, 2, 15)
+				switch r.Intn(6) { // a level of 0 / 100 switches that side (almost) off
+				case 0:
+					lo = 0
+				case 1:
+					hi = 100
+				}
 				return Cfg{I: []int{r.Range(1, 12)}, F: []float64{lo, hi}}
 			},
 			New: func(c Cfg) strategy.Strategy {
